@@ -469,7 +469,7 @@ class ContractRun:
     """A task: `body(c)` plus the static description needed for native replay."""
 
     def __init__(self, body, clauses=(), raises=None, frame=(), fresh=False, names=None, unchanged_on_raise=True,
-                 replayable=True, use=(), pool=None):
+                 replayable=True, use=(), pool=None, cuts=None):
         self.body = body
         self.clauses = list(clauses)
         self.raises = raises
@@ -480,6 +480,7 @@ class ContractRun:
         self.replayable = replayable
         self.use = tuple(use)     # names of modular contracts (summaries.MODULAR) assumed at call sites
         self.pool = pool          # callable(envr) -> iterable of (func, recv, args, kwargs, fields) native call instances
+        self.cuts = cuts          # {(qualname, loop ordinal): loop cut} - inductive invariants used in this run
 
 
 def model_dict(c, model):
@@ -571,10 +572,12 @@ def run_item(gid, item, cfg):
         saved_summ = dict(envr.program.summaries)
         for u in run.use:
             envr.program.summaries.update(summaries.MODULAR[u])
+        envr.interp.loop_cuts = run.cuts or {}
         try:
                 results = explore.explore(task, max_paths=cfg.get('max_paths', 200000), timeout_ms=cfg.get('solver_ms', 10000),
                                       max_steps=cfg.get('max_steps', 400000), deadline=deadline)
         finally:
+            envr.interp.loop_cuts = {}
             envr.program.summaries.clear()
             envr.program.summaries.update(saved_summ)
         for r in results:
